@@ -140,6 +140,7 @@ pub struct Rig {
     pub raw_hook_events: usize,
     pub panics: Vec<String>,
     pending_qc: HashMap<(usize, Digest), VecDeque<bool>>,
+    pending_sig: HashMap<(usize, Digest, PublicKey), VecDeque<bool>>,
 }
 
 pub fn port_of(addr: &SocketAddr) -> (usize, Port) {
@@ -358,6 +359,7 @@ impl Rig {
             raw_hook_events: 0,
             panics: Vec::new(),
             pending_qc: HashMap::new(),
+            pending_sig: HashMap::new(),
         };
         for i in 0..rig.cfg.n {
             if rig.cfg.real[i] {
@@ -373,6 +375,11 @@ impl Rig {
             .position(|(k, _)| k == pk)
             .map(|x| x as i64)
             .unwrap_or(-2)
+    }
+
+    /// public key from its hex rendering in a hook event (the default key if it is not a committee member's)
+    fn key_of_hex(&self, h: &str) -> PublicKey {
+        self.keys.iter().map(|(k, _)| *k).find(|k| simnet::hex(&k.0) == h).unwrap_or_default()
     }
 
     fn idx_of_hex(&self, h: &str) -> i64 {
@@ -680,11 +687,29 @@ impl Rig {
                     }
                     (_, "Vote") => {
                         let id = self.blk_id_from_hex(e["v"]["hash"].as_str().unwrap(), e["v"]["round"].as_i64().unwrap_or(i64::MAX));
-                        ("Vote", json!({"blk":id,"round":e["v"]["round"],"author":self.idx_of_hex(e["v"]["author"].as_str().unwrap())}))
+                        let mut input = json!({"blk":id,"round":e["v"]["round"],"author":self.idx_of_hex(e["v"]["author"].as_str().unwrap())});
+                        // the harness's own verdict on the signature of this delivery (see note_propose)
+                        let vd = Vote { hash: hex_digest(e["v"]["hash"].as_str().unwrap()), round: e["v"]["round"].as_u64().unwrap_or(0),
+                                        author: PublicKey::default(), signature: Signature::default() }.digest();
+                        let who = self.key_of_hex(e["v"]["author"].as_str().unwrap());
+                        if let Some(q) = self.pending_sig.get_mut(&(n, vd, who)) {
+                            if let Some(ok) = q.pop_front() {
+                                input["sig_ok"] = json!(ok);
+                            }
+                        }
+                        ("Vote", input)
                     }
                     (_, "Timeout") => {
                         let qc = self.abs_qc(&e["t"]["high_qc"]);
-                        ("Timeout", json!({"round":e["t"]["round"],"author":self.idx_of_hex(e["t"]["author"].as_str().unwrap()),"hq":qc["blk"],"hqr":qc["round"],"qc":qc}))
+                        let mut input = json!({"round":e["t"]["round"],"author":self.idx_of_hex(e["t"]["author"].as_str().unwrap()),"hq":qc["blk"],"hqr":qc["round"],"qc":qc});
+                        let td = Self::timeout_digest(e["t"]["round"].as_u64().unwrap_or(0), e["t"]["high_qc"]["round"].as_u64().unwrap_or(0));
+                        let who = self.key_of_hex(e["t"]["author"].as_str().unwrap());
+                        if let Some(q) = self.pending_sig.get_mut(&(n, td, who)) {
+                            if let Some(ok) = q.pop_front() {
+                                input["sig_ok"] = json!(ok);
+                            }
+                        }
+                        ("Timeout", input)
                     }
                     (_, "TC") => ("TC", json!({"tc": self.abs_tc(&e["tc"]), "tcfull": self.abs_tc_full(&e["tc"])})),
                     (_, "Timer") => ("Timer", json!({"round": e["round"]})),
@@ -956,6 +981,19 @@ impl Rig {
             };
             let ok = exact_genesis || (parent_round_ok && b.qc.verify(&self.committee).is_ok());
             self.pending_qc.entry((to, b.digest())).or_default().push_back(ok);
+        }
+        // likewise for votes and timeouts: does the signature verify (Vote::verify / Timeout::verify called here, outside the node)?
+        // The C19 monitors count a vote / timeout as "received" only if it reached the node correctly signed.
+        match bincode::deserialize::<ConsensusMessage>(data) {
+            Ok(ConsensusMessage::Vote(v)) => {
+                let ok = v.verify(&self.committee).is_ok();
+                self.pending_sig.entry((to, v.digest(), v.author)).or_default().push_back(ok);
+            }
+            Ok(ConsensusMessage::Timeout(t)) => {
+                let ok = t.verify(&self.committee).is_ok();
+                self.pending_sig.entry((to, t.digest(), t.author)).or_default().push_back(ok);
+            }
+            _ => (),
         }
     }
 
